@@ -1007,7 +1007,9 @@ class GroupCoordinator(BaseCoordinator):
                     "to another member"
                 ) from exc
             except Errors.KafkaError as err:
-                if not err.retriable:
+                if not err.retriable or self._closing.done():
+                    # while closing a failed commit is not retried: the
+                    # coordinator is not looked up any more
                     raise
                 else:
                     # wait backoff and try again
